@@ -854,3 +854,11 @@ package jmespath
 //@   var c Node
 //@   var v Val
 //@   ensures same(specPipe2(specPipe2Node(a, b), c, v), specPipe2(a, specPipe2Node(b, c), v))
+
+//@ lemma pureTree-children
+//@   props C01,C02,C07,C15
+//@   var n Node
+//@   var i int
+//@   requires pureTree(n) && 0 <= i && i < nkids(n)
+//@   ensures pureTree(kid(n, i))
+//@   trigger pureTree(kid(n, i))
